@@ -18,7 +18,7 @@ from sim import specs, canon, core, seams, refsolve
 ID = "C03"
 DEFAULT_SEED = {"quick": 303, "thorough": 2303}
 TIERS = {"quick": {"runs": 4000, "budget_s": 100, "cap_s": 150},
-         "thorough": {"runs": 30000, "budget_s": 1200, "cap_s": 240}}
+         "thorough": {"runs": 250000, "budget_s": 1200, "cap_s": 240}}
 STUBS = ["SimSolver: response faults status:<s> / raise / budget on the peer behind cvxpy.Problem.solve",
          "the client issuing optimize() conversations"]
 ASSUMPTIONS = [
@@ -30,7 +30,7 @@ ASSUMPTIONS = [
     "robust target: judged on feasibility and value == -c.x only (what 'best' means there is C17's subject)",
     "ortools interface not exercised (package absent)",
 ]
-REQUIRED_PROBES = ["bool_with_duplicate_mapping_rows", "bool_with_bounds_not_01", "nonoptimal_on_last_partial_interval",
+REQUIRED_PROBES = ["zero_row_class", "second_call_same_object", "split_mip_soft", "bool_with_duplicate_mapping_rows", "bool_with_bounds_not_01", "nonoptimal_on_last_partial_interval",
                    "true_infeasible_reported", "robust_with_binding_sample", "all_four_row_classes", "empty_A",
                    "soft_problem", "mip_to_lp_solver", "request_probe_infeasible_point"]
 SHRINK_KEYS = []
@@ -80,6 +80,21 @@ def gen_direct(rng, infeasible=False):
             if t in ("S", "N") and sum(1 for rr in rows if rr["t"] in ("S", "N")) >= max(1, n - 2):
                 t = "U"  # keep equality rows below n so the problem does not degenerate to a point too often
         rows.append({"t": t, "cols": cols, "vals": vals, "b": round(b, 6)})
+    zr = rng.random()
+    if zr < 0.12:
+        # rows without any coefficient: 0*x (<=,>=,=) b.  Satisfiable ones are harmless, an unsatisfiable one makes the
+        # problem infeasible; sometimes they are the only rows of their class
+        t = rng.choice(["U", "L", "S", "N"])
+        if rng.random() < 0.5:
+            rows = [r for r in rows if r["t"] != t]
+        sat = rng.random() < 0.5 and not infeasible
+        for _ in range(rng.randint(1, 2)):
+            if sat:
+                b = {"U": 1.5, "L": -1.5, "S": 0.0, "N": 0.0}[t]
+            else:
+                b = {"U": -1.0, "L": 1.0, "S": 0.5, "N": -0.5}[t]
+            rows.append({"t": t, "cols": [], "vals": [], "b": b})
+        rng.shuffle(rows)
     if infeasible:
         k = rng.randint(1, min(n, 3))
         cols = sorted(rng.sample(range(n), k))
@@ -145,11 +160,12 @@ def gen_plan(rng, run_index, tier, opts):
             plan["source"]["contradict"] = True
         n_solves = 1
     else:
+        mipw = rng.random() < 0.25
         env = specs.Env(rng, max_T=72, freqs=["h", "h", "4h"])
-        g = specs.gen_grid(env, T=rng.choice([36, 48, 72]) if True else None, freq="h")
-        P = specs.gen_portfolio(env, grid_freq="h", mip_ok=False, market_p=1.0)
+        g = specs.gen_grid(env, T=(rng.choice([36, 48]) if mipw else rng.choice([36, 48, 72])), freq="h")
+        P = specs.gen_portfolio(env, grid_freq="h", mip_ok=mipw, market_p=1.0)
         p = specs.gen_prices(env, g, form="dict_nd")
-        mip = False
+        mip = any(specs.is_mip_asset(env.world, a) for a in env.world["portfolios"][P]["assets"])
         plan["source"] = {"kind": "split", "world": specs.clean_world(env.world), "portfolio": P, "grid": g, "prices": p,
                           "interval": rng.choice(["d", "d", "12h", "2d"])}
         n_solves = 8
@@ -167,8 +183,15 @@ def gen_plan(rng, run_index, tier, opts):
         plan["target"] = "robust"
         plan["n_samples"] = rng.randint(2, 4)
         plan["sample_seed"] = rng.randrange(10 ** 6)
-    if mip and rng.random() < 0.1:
+    if mip and rng.random() < 0.15:
         plan["soft"] = True
+    # earlier optimize() calls on the same problem object (relaxed / other solver): must not change what the next one does
+    if rng.random() < 0.25:
+        pre = []
+        for _ in range(rng.choice([1, 1, 2])):
+            pre.append({"soft": bool(mip and rng.random() < 0.6),
+                        "solver": rng.choice(MIP_SOLVERS if mip else LP_SOLVERS), "target": "value", "faults": []})
+        plan["pre_calls"] = pre
     # response faults: one entry per solve call
     faults = []
     for k in range(n_solves):
@@ -273,7 +296,7 @@ class Conversation:
 
     # ---- tolerances
     def tols(self):
-        s = (self.plan.get("solver") or "").upper()
+        s = (getattr(self, "cur_solver", self.plan.get("solver")) or "").upper()
         if s in FIRST_ORDER:
             return 2e-3, 2e-3
         return 1e-6, 1e-6
@@ -348,7 +371,7 @@ class Conversation:
         rk = getattr(self, "ref_x", {}).get(k)
         if rk is not None:
             pts.append(np.asarray(rk, float))
-        samples = self.samples if self.plan.get("target") == "robust" else None
+        samples = self.samples if getattr(self, "cur_target", "value") == "robust" else None
         for z in pts:
             self.stats["request_probe_points"] += 1
             x.save_value(z)
@@ -368,21 +391,41 @@ class Conversation:
             if nv.max(initial=0) > 1e-9:
                 self.probes["request_probe_infeasible_point"] += 1
             a, b_ = np.sort(cv), np.sort(nv)
+            # only violated constraints are compared: a request that leaves out (or repeats) rows which are satisfied at
+            # the probe point anyway describes the same feasible set there
+            a, b_ = a[a > 1e-12], b_[b_ > 1e-12]
             scale = 1 + float(np.abs(z).max(initial=0)) * (1 + (abs(sp.csr_matrix(op.A)).sum(axis=1).max() if op.A is not None and op.A.shape[0] else 0))
-            if a.shape != b_.shape or not np.allclose(a, b_, rtol=1e-9, atol=1e-9 * scale):
+            # compared well below the solvers' own tolerance (1e-6) but above rounding noise: a change that moves a bound
+            # or right-hand side by less than that does not violate "within solver tolerance"
+            if a.shape != b_.shape or not np.allclose(a, b_, rtol=2e-7, atol=2e-7 * scale):
                 # which class disagrees?  compare totals per class against the request's totals
                 self.viol("request-constraints",
                           "constraint residuals of the request differ from those of (l,u,A,b,cType) at a probe point: "
-                          "request has %d scalar constraints with total violation %.6g, the problem has %d with %.6g; per class %s"
+                          "request has %d violated scalar constraints with total violation %.6g, the problem has %d with %.6g; per class %s"
                           % (a.size, a.sum(), b_.size, b_.sum(), {kk: round(float(v.sum()), 6) for kk, v in res.items()}),
                           "residuals")
                 return
             want_obj = tval if samples is not None else float(-np.asarray(op.c, float) @ z)
-            if abs(obj - want_obj) > 1e-9 * (1 + abs(want_obj)):
+            if abs(obj - want_obj) > 2e-7 * (1 + abs(want_obj)):
                 self.viol("request-objective", "objective of the request at a probe point is %r, -c.z is %r" % (obj, want_obj), "objective")
                 return
         for v in prob.variables():
             v.save_value(None)
+
+    def peer_answer_violates_request(self, rec, x, tol):
+        """True if the point the peer returned violates the very request EAO sent by more than tol: then the peer,
+        not EAO's translation, is responsible for an infeasible answer (cvxpy/SCIP e.g. accept '0*x == 0.5')."""
+        k = rec.get("call") if rec else None
+        if k not in self.requests:
+            return False
+        prob, xv, oth = self.requests[k]
+        try:
+            xv.save_value(np.asarray(x, float))
+            self.set_aux(oth, x)
+            cv = max([float(np.max(np.atleast_1d(c.violation()), initial=0)) for c in prob.constraints] or [0.0])
+        except Exception:
+            return False
+        return cv > tol
 
     def set_aux(self, others, z):
         """robust target: give the auxiliary 'minimum DCF' variable a value that satisfies its sample rows at z"""
@@ -413,7 +456,7 @@ class Conversation:
                             cv = max([float(np.max(np.atleast_1d(c.violation()), initial=0)) for c in prob.constraints] or [0.0])
                         except Exception:
                             cv = None
-                    if (self.plan.get("solver") or "").upper() in FIRST_ORDER:
+                    if (getattr(self, "cur_solver", None) or "").upper() in FIRST_ORDER:
                         self.stats["inconclusive"] += 1
                     elif cv is not None and cv <= 1e-6 * (1 + float(np.abs(_w).max(initial=0))):
                         self.stats["peer_false_infeasible"] = self.stats.get("peer_false_infeasible", 0) + 1
@@ -454,6 +497,9 @@ class Conversation:
             bad = r[kk] > ftol * np.maximum(1 + np.abs(bound), gscale)
             if bad.any():
                 i = int(np.argmax(r[kk] - ftol * np.maximum(1 + np.abs(bound), gscale)))
+                if self.peer_answer_violates_request(rec, x, 0.5 * r[kk][i]):
+                    self.stats["peer_infeasible_answer"] = self.stats.get("peer_infeasible_answer", 0) + 1
+                    return None
                 self.viol("result-violates-bound", "x[%d]=%r violates its %s %r by %.3g" % (i, x[i], name, bound[i], r[kk][i]), kk)
                 return None
         for kk in "ULSN":
@@ -462,6 +508,9 @@ class Conversation:
                 bad = r[kk] > ftol * rowscale[I]
                 if bad.any():
                     j = int(np.argmax(r[kk] / rowscale[I]))
+                    if self.peer_answer_violates_request(rec, x, 0.5 * r[kk][j]):
+                        self.stats["peer_infeasible_answer"] = self.stats.get("peer_infeasible_answer", 0) + 1
+                        return None
                     self.viol("result-violates-row", "a row of class %s is violated by %.3g (scale %.3g)" % (kk, r[kk][j], rowscale[I][j]), kk)
                     return None
         if not self.soft:
@@ -474,7 +523,7 @@ class Conversation:
         if abs(float(res.value) - cx) > max(otol, 1e-7) * vscale:
             self.viol("value-not-minus-cx", "reported value %r, -c.x = %r" % (float(res.value), cx), "value")
             return None
-        if self.plan.get("target") == "robust":
+        if getattr(self, "cur_target", "value") == "robust":
             return x
         st, ref, rx = reference(op, [] if self.soft else bools)
         self.stats["ref_solves"] += 1
@@ -503,7 +552,7 @@ class Conversation:
                     self.stats["peer_suboptimal"] = self.stats.get("peer_suboptimal", 0) + 1
                     self.events.append((tag, "peer-suboptimal"))
                     return x
-            self.viol("result-not-optimal", "reported value %r, but a verified feasible point has value %r (solver %s)" % (float(res.value), ref, self.plan.get("solver")), "suboptimal")
+            self.viol("result-not-optimal", "reported value %r, but a verified feasible point has value %r (solver %s)" % (float(res.value), ref, getattr(self, "cur_solver", None)), "suboptimal")
             return None
         return x
 
@@ -513,6 +562,11 @@ class Conversation:
             self.probes["all_four_row_classes"] += 1
         if op.A is None:
             self.probes["empty_A"] += 1
+        if A.shape[0]:
+            nz = np.diff(A.indptr)
+            cta = np.array(list(ct))
+            if any((nz[cta == k] == 0).all() for k in set(ct)):
+                self.probes["zero_row_class"] += 1
         m = op.mapping
         if bools:
             dup = m.index[m.index.duplicated(keep=False)].unique()
@@ -527,6 +581,7 @@ class Conversation:
         import eaopack as eao
         plan = self.plan
         self.stats["conversations"] += 1
+        outcome = "skipped"
         with core.quiet():
             try:
                 op, ctx = self.build()
@@ -539,68 +594,98 @@ class Conversation:
             if any(len(o.c) == 0 for o in ops) or any(len(o.c) > 600 for o in ops):
                 self.events.append(("build", "skipped: empty or too large"))
                 return self.result("skipped")
-            self.cur_ops = ops
-            kw = {}
-            if plan.get("solver"):
-                kw["solver"] = plan["solver"]
-            if self.soft:
-                kw["make_soft_problem"] = True
-                self.probes["soft_problem"] += 1
-            if plan.get("target") == "robust":
-                kw["target"] = "robust"
-                rs = np.random.RandomState(plan["sample_seed"])  # seeded from the plan, not from a global source
-                c = np.asarray(ops[0].c, float)
-                self.samples = [c * (1 + 0.3 * rs.randn(len(c))) + 0.5 * rs.randn(len(c)) for _ in range(plan["n_samples"])]
-                kw["samples"] = self.samples
-            bools_all = [expected_bools(o, self.soft) for o in ops]
-            rowsig = self.note_structure(ops[0], bools_all[0])
-            if plan["cfg"].get("mip") and (plan.get("solver") or "").upper() in ("CLARABEL", "OSQP", "SCS"):
-                self.probes["mip_to_lp_solver"] += 1
-            faults = list(plan["faults"])[:len(ops)] if not split else [None] * len(ops)
-            if split and plan.get("fault_pos") is not None:
-                pos = plan["fault_pos"] if plan["fault_pos"] >= 0 else len(ops) - 1
-                pos = min(pos, len(ops) - 1)
-                f = [x for x in plan["faults"] if x]
-                if f:
-                    faults[pos] = f[0]
-                    if pos == len(ops) - 1 and len(ops[-1].c) < len(ops[0].c):
-                        self.probes["nonoptimal_on_last_partial_interval"] += 1
-            # reference optimum as one of the probe points of the request check (computed before the conversation)
-            self.ref_x = {}
-            if not split and plan.get("target") != "robust" and len(ops[0].c) <= 300:
-                st, _, rx = reference(ops[0], bools_all[0])
-                self.stats["ref_solves"] += 1
-                if st == "optimal":
-                    self.ref_x[0] = rx
-            with seams.SimSolver(faults, on_request=self.on_request) as ss:
-                try:
-                    res = op.optimize(**kw)
-                    exc = None
-                except Exception as e:
-                    res, exc = None, e
-            self.stats["solve_calls"] += len(ss.log)
-            for k_, v_ in ss.fired.items():
-                self.fault(k_.split(":")[0] if not k_.startswith("status:") else k_)
-            outcome = "raise" if exc is not None else ("fail" if isinstance(res, str) else "results")
-            if self.violation is None:
-                if exc is not None:
-                    self.events.append(("optimize", "raise:%s" % type(exc).__name__))
-                    self.stats["no_claim"] += 1
-                elif not split:
-                    rec = ss.log[0] if ss.log else None
-                    x = self.check_result(ops[0], res, rec, faults[0] if faults else None, "mono", bools_all[0])
-                    if x is not None:
-                        self.events.append(("optimize", canon.digest_canon({"v": float(res.value)}, nd=4)))
-                        if plan.get("target") == "robust" and self.samples is not None:
-                            vals = [float(-s @ x) for s in self.samples]
-                            if min(vals) < float(-np.asarray(ops[0].c) @ x) - 1e-9:
-                                self.probes["robust_with_binding_sample"] += 1
-                else:
-                    self.check_split(op, ops, res, ss.log, faults, bools_all)
-            self.pairs.add(self.cell(rowsig, split, outcome, faults, ss.log))
+            # every call of the conversation is judged against the problem as it was handed over - optimize() must
+            # neither need nor cause a change of the problem object
+            ref_ops = copy.deepcopy(ops)
+            ref_joint_len = len(op.c)
+            calls = [dict(c, pre=True) for c in plan.get("pre_calls", [])]
+            calls.append({"soft": bool(plan.get("soft")), "solver": plan.get("solver"), "target": plan.get("target", "value"),
+                          "faults": plan["faults"], "pre": False})
+            for ci, call in enumerate(calls):
+                outcome = self.one_call(op, ref_ops, ref_joint_len, split, call, ci)
+                if self.violation is not None:
+                    break
         return self.result(outcome)
 
-    def check_split(self, op, ops, res, log, faults, bools_all):
+    def one_call(self, op, ops, joint_len, split, call, ci):
+        plan = self.plan
+        self.soft = bool(call.get("soft"))
+        self.cur_ops = ops
+        self.requests = {}
+        self.samples = None
+        kw = {}
+        if call.get("solver"):
+            kw["solver"] = call["solver"]
+        if self.soft:
+            kw["make_soft_problem"] = True
+            self.probes["soft_problem"] += 1
+        target = call.get("target", "value")
+        if target == "robust":
+            kw["target"] = "robust"
+            rs = np.random.RandomState(plan["sample_seed"])  # seeded from the plan, not from a global source
+            c = np.asarray(ops[0].c, float)
+            self.samples = [c * (1 + 0.3 * rs.randn(len(c))) + 0.5 * rs.randn(len(c)) for _ in range(plan["n_samples"])]
+            kw["samples"] = self.samples
+        self.cur_target = target
+        self.cur_solver = call.get("solver")
+        if ci > 0:
+            self.probes["second_call_same_object"] += 1
+        if split and self.soft and plan["cfg"].get("mip"):
+            self.probes["split_mip_soft"] += 1
+        bools_all = [expected_bools(o, self.soft) for o in ops]
+        rowsig = self.note_structure(ops[0], expected_bools(ops[0], False))
+        if plan["cfg"].get("mip") and not self.soft and (call.get("solver") or "").upper() in ("CLARABEL", "OSQP", "SCS"):
+            self.probes["mip_to_lp_solver"] += 1
+        cf = call.get("faults") or []
+        faults = list(cf)[:len(ops)] if not split else [None] * len(ops)
+        if split and not call.get("pre") and plan.get("fault_pos") is not None:
+            pos = plan["fault_pos"] if plan["fault_pos"] >= 0 else len(ops) - 1
+            pos = min(pos, len(ops) - 1)
+            f = [x for x in cf if x]
+            if f:
+                faults[pos] = f[0]
+                if pos == len(ops) - 1 and len(ops[-1].c) < len(ops[0].c):
+                    self.probes["nonoptimal_on_last_partial_interval"] += 1
+        # reference optimum as one of the probe points of the request check (computed before the call)
+        self.ref_x = {}
+        if not split and target != "robust" and len(ops[0].c) <= 300:
+            st, _, rx = reference(ops[0], bools_all[0])
+            self.stats["ref_solves"] += 1
+            if st == "optimal":
+                self.ref_x[0] = rx
+        with seams.SimSolver(faults, on_request=self.on_request) as ss:
+            try:
+                res = op.optimize(**kw)
+                exc = None
+            except Exception as e:
+                res, exc = None, e
+        self.stats["solve_calls"] += len(ss.log)
+        for k_, v_ in ss.fired.items():
+            self.fault(k_.split(":")[0] if not k_.startswith("status:") else k_)
+        outcome = "raise" if exc is not None else ("fail" if isinstance(res, str) else "results")
+        tagp = "call%d" % ci
+        if self.violation is None:
+            if exc is not None:
+                self.events.append((tagp, "raise:%s" % type(exc).__name__))
+                self.stats["no_claim"] += 1
+            elif not split:
+                rec = ss.log[0] if ss.log else None
+                x = self.check_result(ops[0], res, rec, faults[0] if faults else None, tagp, bools_all[0])
+                if x is not None:
+                    self.events.append((tagp, canon.digest_canon({"v": float(res.value)}, nd=4)))
+                    if target == "robust" and self.samples is not None:
+                        vals = [float(-s @ x) for s in self.samples]
+                        if min(vals) < float(-np.asarray(ops[0].c) @ x) - 1e-9:
+                            self.probes["robust_with_binding_sample"] += 1
+            else:
+                self.check_split(joint_len, ops, res, ss.log, faults, bools_all)
+        if self.violation is not None and ci > 0:
+            self.violation["detail"] = "call %d on the same problem object (after %s): %s" % (
+                ci, [("soft" if c.get("soft") else "plain") + "/" + str(c.get("solver")) for c in plan.get("pre_calls", [])][:ci], self.violation["detail"])
+        self.pairs.add(self.cell(rowsig, split, outcome, faults, ss.log, call, ci))
+        return outcome
+
+    def check_split(self, joint_len, ops, res, log, faults, bools_all):
         if isinstance(res, str) or res is None:
             self.events.append(("split", "fail:%s" % res))
             self.stats["no_claim"] += 1
@@ -613,8 +698,8 @@ class Conversation:
             self.viol("success-after-nonoptimal-response", "interval statuses %s but the split optimize() returned a Results" % [r.get("status") for r in log], "split-status")
             return
         x = np.asarray(res.x, float)
-        if len(x) != len(op.c):
-            self.viol("result-shape", "split result has %d entries, joint problem %d variables" % (len(x), len(op.c)), "split-x")
+        if len(x) != joint_len:
+            self.viol("result-shape", "split result has %d entries, joint problem %d variables" % (len(x), joint_len), "split-x")
             return
         self.stats["split_results_checked"] += 1
         pos = 0
@@ -628,7 +713,7 @@ class Conversation:
             r = R()
             r.x, r.value = seg, float(-np.asarray(o.c, float) @ seg)
             total += r.value
-            xx = self.check_result(o, r, {"status": "optimal"}, None, "interval%d" % k, bools_all[k])
+            xx = self.check_result(o, r, {"status": "optimal", "call": k}, None, "interval%d" % k, bools_all[k])
             if self.violation is not None:
                 self.violation["detail"] = "interval %d: %s" % (k, self.violation["detail"])
                 return
@@ -638,15 +723,15 @@ class Conversation:
             return
         self.events.append(("split", canon.digest_canon({"v": float(res.value)}, nd=4)))
 
-    def cell(self, rowsig, split, outcome, faults, log):
+    def cell(self, rowsig, split, outcome, faults, log, call, ci):
         plan = self.plan
         f = [x for x in faults if x]
-        fk = "-" if not f else (f[0] if not f[0].startswith("status:") else f[0])
-        trivial = (not f) and not split and plan.get("target") == "value" and plan.get("solver") is None and not plan["cfg"].get("mip") \
-            and plan["source"]["kind"] == "portfolio" and outcome == "results"
+        fk = "-" if not f else f[0]
+        trivial = (not f) and not split and call.get("target", "value") == "value" and call.get("solver") is None and not plan["cfg"].get("mip") \
+            and plan["source"]["kind"] == "portfolio" and outcome == "results" and ci == 0
         return ("T|" if trivial else "N|") + "|".join([plan["source"]["kind"], rowsig, "mip" if plan["cfg"].get("mip") else "lp",
-                                                        str(plan.get("solver")), fk, plan.get("target", "value"),
-                                                        "soft" if self.soft else "-", outcome])
+                                                        str(call.get("solver")), fk, call.get("target", "value"),
+                                                        "soft" if self.soft else "-", outcome, "call%d" % ci])
 
     def result(self, outcome):
         if self.harness_error:
@@ -670,6 +755,10 @@ def simplify_candidates(plan):
     if any(plan["faults"]):
         c = copy.deepcopy(plan)
         c["faults"] = [None] * len(plan["faults"])
+        yield c
+    for i in range(len(plan.get("pre_calls", []))):
+        c = copy.deepcopy(plan)
+        del c["pre_calls"][i]
         yield c
     if plan.get("target") == "robust":
         c = copy.deepcopy(plan)
